@@ -71,6 +71,6 @@ var loopPolicies = map[string]loopPolicy{
 		"present-in-index": "already visited",
 		"lookup-miss":      "the target identifier names no node of the list (dangling edge)"}},
 	// --- SPDX3 (beta) writer ---
-	"beta.(*SPDX3).Serialize/Nodes":                 {skips: map[string]string{"switch-default(sbom.Node_NodeType)": "a node kind outside {PACKAGE, FILE} is an unknown enum number"}},
+	"beta.(*SPDX3).Serialize/Nodes":                 {skips: map[string]string{"lookup-miss": "when the kind dispatch lives in a helper, the helper yields nothing only for a node kind outside {PACKAGE, FILE}", "switch-default(sbom.Node_NodeType)": "a node kind outside {PACKAGE, FILE} is an unknown enum number"}},
 	"beta.purposeStringsFromPurpose/[]sbom.Purpose": {skips: map[string]string{"switch-default(sbom.Purpose)": "unknown purpose number"}},
 }
